@@ -191,6 +191,11 @@ def build_ops(ctx, drv, htoy):
         classes.append(cls)
         if i % 50 == 49:
             ops.append(canary(i)); classes.append("canary")
+    # over-limit declared lengths with the client still connected and sending: must be refused at once, not buffered
+    for ln in (1048577, 2 ** 31 - 1, 2 ** 31, 2 ** 32 - 1):
+        for t in (2, 4):
+            b = cc.hdr(t, 0, ln) + b"B" * 4096
+            ops.append("cred req %s now=1000050 peer=500:600 mem=- cut=%d hold=1 fast=1" % (cc.hx(b), len(b))); classes.append("over-limit")
     # stalled clients (each costs the daemon's I/O timeout of 2 s): mid-header, after the header, mid-body
     good = cc.dec_req(creds[0]) if creds else cc.enc_req(data=b"x" * 40)
     for k in ([5, 11, 30] if ctx.tier == "quick" else [0, 1, 5, 10, 11, 12, 30, len(good) - 1]):
@@ -207,6 +212,10 @@ def make_oracle(classes):
         if outl.strip() == "oob":
             return None       # only the model prints this; handled as a difference
         rsp, kv = cc.rsp_of(outl)
+        if "request-not-refused-at-once" in outl:
+            return "a request that must be refused from its header alone kept the daemon busy (%s)" % outl.split()[-1]
+        if cls == "over-limit" and rsp.raw:
+            return "request with declared length above 1 MiB was answered"
         if "stalled-client-dropped-after" in outl:
             return "stalled client was not dropped at the I/O timeout (%s)" % outl.split()[-1]
         if kv.get("leak") != "0":
